@@ -6,7 +6,7 @@ import os, subprocess, sys, tempfile
 V = os.path.dirname(os.path.dirname(os.path.abspath(__file__)))
 def run(prop, runs, seed, workers, shift, tag):
     fn = os.path.join(tempfile.gettempdir(), "vsim_det_%s_%s_%d.txt" % (prop, tag, os.getpid()))
-    env = dict(os.environ, VSIM_RUNS=str(runs), VERIF_SEED=str(seed), VSIM_WORKERS=str(workers), VSIM_HS_SHIFT=str(shift), VSIM_DUMP_DIGESTS=fn)
+    env = dict(os.environ, VSIM_RUNS=str(runs), VERIF_SEED=str(seed), VSIM_WORKERS=str(workers), VSIM_HS_SHIFT=str(shift), VSIM_DUMP_DIGESTS=fn, VSIM_NO_EVIDENCE="1")
     p = subprocess.run([os.path.join(V, "bin/check"), prop, "quick"], env=env, capture_output=True, text=True)
     d = open(fn).read()
     os.unlink(fn)
